@@ -12,8 +12,8 @@ fn stub_format(_: std::fmt::Arguments<'_>) -> String { String::new() }
 fn spec_percent_encode(input: &str) -> std::borrow::Cow<'_, str> {
     const HEX: &[u8; 16] = b"0123456789ABCDEF";
     let b = input.as_bytes();
-    assert!(b.len() <= 4, "harness bound of the percent-encoding stub");
-    let mut out = [0u8; 12];
+    assert!(b.len() <= 8, "harness bound of the percent-encoding stub");
+    let mut out = [0u8; 24];
     let (mut n, mut i, mut any) = (0usize, 0usize, false);
     while i < b.len() {
         let c = b[i];
@@ -29,10 +29,10 @@ fn spec_percent_encode(input: &str) -> std::borrow::Cow<'_, str> {
 
 /// serialize one value in the value place of a pair `k=<value>`, return the bytes of the value place
 fn ser_value<T: Serialize>(v: &T) -> &'static [u8] {
-    let mut s = ser::URLEncodedSerializer::new();
+    let mut s = ser::URLEncodedSerializer::v_value_place();      // output so far: `k=`
     assert!(v.serialize(&mut s).is_ok(), "serializer accepts the value");
     let out: &'static str = Box::leak(s.output().into_boxed_str());
-    out.as_bytes()
+    &out.as_bytes()[2..]
 }
 fn de_value<T: Deserialize<'static>>(bytes: &'static [u8]) -> Option<T> {
     let mut d = de::URLEncodedDeserializer::v_at_value(bytes);
@@ -67,8 +67,33 @@ roundtrip!(c09_roundtrip_unit_enum, Colour, 12);
 roundtrip!(c09_roundtrip_option_unit_enum, Option<Colour>, 12);
 roundtrip!(c09_roundtrip_newtype, Flag, 8);
 roundtrip!(c09_roundtrip_char, char, 14);
-roundtrip!(c09_roundtrip_pair_bool, (bool, bool), 12);
-roundtrip!(c09_roundtrip_triple_bool, (bool, bool, bool), 18);
+/// every ASCII char (all reserved characters: & = , % + space, controls), enumerated CONCRETELY in 4 chunks of 32 (a symbolic char makes the
+/// serializer's output symbolic-length: > 20 GB, measured)
+fn char_ascii_body(k: usize) {
+    let mut c = (k * 32) as u8;
+    while c < (k * 32 + 32) as u8 {
+        let v = c as char;
+        let back: Option<char> = de_value(ser_value(&v));
+        assert!(back == Some(v), "urlencoded: the serialized char decodes back to an equal char");
+        c += 1;
+    }
+}
+//@chunks 4 c09_roundtrip_char_ascii char_ascii_body #[kani::proof] #[kani::unwind(34)] #[kani::stub(alloc::fmt::format, stub_format)] #[kani::stub(crate::percent_encoding::percent_decode, spec_percent_decode)] #[kani::stub(crate::percent_encoding::percent_decode_utf8, spec_percent_decode_utf8)] #[kani::stub(crate::percent_encoding::percent_encode, spec_percent_encode)] #[kani::stub(std::str::from_utf8, stub_from_utf8)]
+/// representative non-ASCII chars of every UTF-8 length (concrete)
+#[kani::proof]
+#[kani::unwind(14)]
+#[kani::stub(alloc::fmt::format, stub_format)]
+#[kani::stub(crate::percent_encoding::percent_decode, spec_percent_decode)]
+#[kani::stub(crate::percent_encoding::percent_decode_utf8, spec_percent_decode_utf8)]
+#[kani::stub(crate::percent_encoding::percent_encode, spec_percent_encode)]
+#[kani::stub(std::str::from_utf8, stub_from_utf8)]
+fn c09_roundtrip_char_samples() {
+    let cs = ['\u{e9}', '\u{20ac}', '\u{1f600}', '\u{7ff}', '\u{800}', '\u{ffff}', '\u{10000}', '\u{10ffff}'];
+    let mut i = 0;
+    while i < cs.len() { let v = cs[i]; let back: Option<char> = de_value(ser_value(&v)); assert!(back == Some(v), "urlencoded: the serialized char decodes back to an equal char"); i += 1; }
+}
+roundtrip!(c09_roundtrip_pair_bool, (bool, bool), 26);
+roundtrip!(c09_roundtrip_triple_bool, (bool, bool, bool), 34);
 
 /// integers: formatting and parsing are core's Display / FromStr (executed, not specified); the values are the boundaries of every width
 macro_rules! int_roundtrip {
@@ -121,6 +146,29 @@ fn roundtrip_string_pair_body(k: usize) {
         "urlencoded: a sequence of strings decodes back to the same sequence (element boundaries kept)");
 }
 //@chunks 4 c09_roundtrip_string_pair roundtrip_string_pair_body #[kani::proof] #[kani::unwind(14)] #[kani::stub(alloc::fmt::format, stub_format)] #[kani::stub(crate::percent_encoding::percent_decode, spec_percent_decode)] #[kani::stub(crate::percent_encoding::percent_decode_utf8, spec_percent_decode_utf8)] #[kani::stub(crate::percent_encoding::percent_encode, spec_percent_encode)] #[kani::stub(std::str::from_utf8, stub_from_utf8)]
+
+/// concrete sequences of strings: separators and escapes inside elements survive (cheap concrete executions beside the symbolic pair harnesses)
+macro_rules! seq_probe {
+    ($name:ident, [$(($a:expr, $b:expr)),*]) => {
+        #[kani::proof]
+        #[kani::unwind(40)]
+        #[kani::stub(alloc::fmt::format, stub_format)]
+        #[kani::stub(crate::percent_encoding::percent_decode, spec_percent_decode)]
+        #[kani::stub(crate::percent_encoding::percent_decode_utf8, spec_percent_decode_utf8)]
+        #[kani::stub(crate::percent_encoding::percent_encode, spec_percent_encode)]
+        #[kani::stub(std::str::from_utf8, stub_from_utf8)]
+        fn $name() {
+            $( {
+                let v: (String, String) = (String::from($a), String::from($b));
+                let back: Option<(String, String)> = de_value(ser_value(&v));
+                assert!(matches!(&back, Some((x, y)) if eqb(x.as_bytes(), $a.as_bytes()) && eqb(y.as_bytes(), $b.as_bytes())), "urlencoded: a sequence of strings decodes back to the same sequence (element boundaries kept)");
+            } )*
+        }
+    };
+}
+seq_probe!(c09_seq_strings_concrete, [("a", "b"), ("a,", "&"), ("=", "%2")]);
+// KNOWN FINDING KF-C09-empty-first-seq-element: the serializer decides "first element" by `output.ends_with('=')`, so an EMPTY first element is lost
+seq_probe!(c09_seq_empty_first_element, [("", "x")]);
 
 /// decoding of `key=value&key=value` text: the MapAccess steps of the real deserializer yield, pair by pair, the RFC 3986
 /// percent-decoding of the `&` / `=`-separated parts (keys of 1 byte, values of 0..=3 bytes, symbolic; `%XY` escapes included)
